@@ -180,13 +180,25 @@ example : (Reader.new (writeDf 3 id [⟨4, 0, [7]⟩, ⟨4, 1, []⟩] [[1, 2, 3]
 example : (Reader.new (writeDf 4 id [⟨0, 0, [1]⟩, ⟨5, 2, [-1, 2]⟩] [[9], []])).isOk = true := by decide
 
 
-/-! ## Writer / reader round trip -/
+/-! ## The file-backed reader (`datafile/src/file.rs`) -/
 
-/-- well-formed item list for the writer: 16-bit type ids and ids, 32-bit data words, equal type
-ids adjacent and ascending (the order `Reader::check` demands of the type table) -/
-def ItemsWellFormed (items : List Item) : Prop :=
-  (∀ it ∈ items, it.typeId < 65536 ∧ it.id < 65536 ∧ ∀ w ∈ it.data, InI32 w)
-    ∧ items.Pairwise (fun a b => a.typeId ≤ b.typeId)
+/-- **A datafile embedded in a larger file.**  `datafile::Reader::new(file)` with the file
+positioned at byte `start` (`Reader::open` is `start = 0`) behaves exactly like the raw reader on
+the bytes from `start` on: same acceptance, same tables, and `read_data` addresses the same data
+region (after the repair of the seek base: position in the file = `datafile_start + seek_base +
+offset`).  Hence every theorem of this file about `Reader.new` holds for the file-backed reader,
+for every file content and every start position. -/
+theorem file_open_at_offset_eq_raw (file : List UInt8) (start : Nat) :
+    fileOpen file start = Reader.new (file.drop start) :=
+  fileOpen_eq file start
+
+/-- the `checked_sub(datafile_start).unwrap()` of `ensure_filesize` cannot fail, even for a file
+positioned beyond its end -/
+theorem file_open_never_panics (file : List UInt8) (start : Nat) (site : String) :
+    fileOpen file start ≠ .panic site := by
+  rw [fileOpen_eq]; exact reader_new_never_panics _ site
+
+/-! ## Writer / reader round trip -/
 
 /-- **Round trip, both format versions.**  For versions 3 and 4, any well-formed item list and any
 data blocks (each at most `i32::MAX` bytes, the limit of the size table) whose file stays below
